@@ -29,8 +29,15 @@
                                                                  rejected_witnesses_repaired, wcoll_user_unchanged_false
   "with a diagnostic and a non-zero exit before anything is      refused_nothing_started, refusal_exits_1 (status 1, or 0
    contacted"                                                    only for -L -V -T); that a diagnostic is printed is
-                                                                 observed on the real binary (oracle), not modelled
-  "pdsh never hangs on it"                                       never_hangs, never_hangs_whole (main as a whole, all
+                                                                 observed on the real binary (oracle), not modelled;
+                                                                 EVERY statement of main.c / opt.c that ends the process
+                                                                 before dsh() — incl. "no hosts", module loading, the
+                                                                 program name — is enumerated from the source by a generated
+                                                                 probe and mapped to a model outcome: C08.every_refusal_exits_1,
+                                                                 C08.exit_sites_all_mapped, C08.battery_agrees (Props/C08.lean,
+                                                                 Dsh/ExitRefuse.lean; vlib/exitrefuse.py: one real command
+                                                                 line per path, diagnostic and trace-file oracle)
+  "pdsh never hangs on it"                                      never_hangs, never_hangs_whole (main as a whole, all
                                                                  three personalities), never_hangs_fanout (composed with
                                                                  the fan-out LTS of C03: no deadlock, bounded executions
                                                                  for the accepted fanout), never_hangs_unchanged_false
@@ -39,6 +46,11 @@
                                                                  numeric_options_use_table_conv
   the same at the point where a setting takes effect (the user  contacts_order_independent, contact_user_is_setting,
    every target is contacted with; composed with C09's model)    contacts_witness
+  ... the connect / command time-out the watchdog enforces        timeouts_in_force (composed with the timed model of C07:
+                                                                 connect_deadline, command_deadline, unlimited_never_interrupted
+                                                                 for THE numbers the accepted record carries)
+  ... the program every target of a copy is asked to run         remote_program_in_force (composed with C11's pdcpCmd / rpdcpCmd),
+                                                                 remote_program_witnesses
   pdsh / pdcp / rpdcp option sets (generated option strings)     personality_letters, dsh_remote_path_default,
                                                                  pcp_no_S_no_k, S_k_iff_on_command_line
   the remote command, the prompt loop (main as a whole)          command_is_operands, command_words_verbatim,
@@ -58,9 +70,13 @@
     * what a module's option handler does with its argument; only its arity matters here (`Defaults.modOpts`).
     * point of use: the user every target is contacted with is modelled (Opt/Use.lean, composed with C09's registry
       model) and observed on real runs in every option order; the fanout and the command time-out in force are
-      OBSERVED where they take effect (overlapping commands, a command cut short) for every source and position, their
-      use inside dsh() is C03/C04's and C07's model; the connect time-out (exec refuses it) and the remote pdcp path
-      (no exec transport for the copy personalities in this build) are only observed where they are stored (-q).
+      OBSERVED where they take effect (overlapping commands, a command cut short) for every source and position — the
+      fanout also under RLIMIT_NOFILE 30 / 33 / 35 / 36 / 37 / 40 (below the 2 * fanout + 32 descriptors dsh() would like) —,
+      their use inside dsh() is C03/C04's and C07's model (timeouts_in_force imports C07's deadlines); the connect time-out
+      is observed through the REAL rsh module against a scripted peer that answers the handshake late or never
+      (vlib/optuse.py), the remote pdcp path through tests/test-modules/pcptest.so with wrapper programs that record their
+      own name, each for every source (command line / environment / default) and option position; the theorems about
+      them are compositions with C07 / C11's definitions, not with a model of xrcmd.c / pcp_server.c.
 -/
 import PdshVerif.Opt.Settings
 import PdshVerif.Opt.Spec
@@ -70,6 +86,8 @@ import PdshVerif.Opt.Table
 import PdshVerif.Opt.Command
 import PdshVerif.Props.C03
 import PdshVerif.Opt.Use
+import PdshVerif.Opt.UseTimed
+import PdshVerif.Props.C07
 
 namespace PdshVerif.C18
 open PdshVerif PdshVerif.Opt
@@ -1234,6 +1252,108 @@ theorem main_witnesses :
       (words ["-w", "h", "ls"])) = some "/p".toList ∧
     exitOf (mainPlan Fixes.all d0 .dsh [] (words ["-w", "h", "-e", "/x", "ls"])) = some 1 ∧
     exitOf (mainPlan Fixes.all d0 .pdcp [] (words ["-w", "h", "-S", "a", "b"])) = some 1 := by
+  decide
+
+/-! ## the time-outs and the remote pdcp path where they take effect -/
+
+/-- TIME-OUTS IN FORCE, composed with the timed model of C07 (Dsh/Timed.lean, by import of `C07.connect_deadline`,
+    `C07.command_deadline`, `C07.unlimited_never_interrupted`): in an accepted run (repaired d4 d5 atoi) the two limits
+    are natural numbers `ct`, `ut` that are exactly what the text in force denotes — command line, else environment —
+    or the built-in default (10 s, resp. none), and for the timed system started WITH THESE numbers — every variant of
+    the dispatcher, every fanout, every vector of scripted hosts, every reachable state — a target that is still
+    connecting is at most `ct + WDOG_POLL` seconds past its start, a running command at most `ut + WDOG_POLL` seconds
+    past its connect, and a limit of 0 never interrupts anything.  The accepted settings of C18 are the parameters
+    C07's theorems are about. -/
+theorem timeouts_in_force {fx : Fixes} {d : Defaults} {p : Pers} {env : Env} {argv : List Str} {c : Cfg}
+    (hd4 : fx.d4 = true) (hd5 : fx.d5 = true) (hat : fx.atoi = true)
+    (h : effective fx d p env argv = .ok c) (hl : d.luser.length ≤ d.loginMax)
+    (hplain : c.pcpServer = false ∧ c.pcpClient = false) :
+    ∃ ct ut : Nat, (ct : Int) = c.connectTimeout ∧ (ut : Int) = c.commandTimeout ∧
+      (∀ t, chosenText (getopt (fullString d p) argv).1 env 't' "PDSH_CONNECT_TIMEOUT" = some t →
+        CInt.denotes t = some (ct : Int)) ∧
+      (chosenText (getopt (fullString d p) argv).1 env 't' "PDSH_CONNECT_TIMEOUT" = none → (ct : Int) = CONNECT_TIMEOUT) ∧
+      (∀ t, chosenText (getopt (fullString d p) argv).1 env 'u' "PDSH_COMMAND_TIMEOUT" = some t →
+        CInt.denotes t = some (ut : Int)) ∧
+      (chosenText (getopt (fullString d p) argv).1 env 'u' "PDSH_COMMAND_TIMEOUT" = none → ut = 0) ∧
+      ∀ (sopt sc sw : Bool) (v : Dsh.Fan.Variant) (f : Nat) (scripts : List Dsh.Timed.Script) (s : Dsh.Timed.St),
+        Dsh.Timed.Reach v f (timedCfg c sopt sc sw) scripts s → ∀ j, j < s.hs.length →
+          ((s.host j).ph = .connecting → 0 < ct → s.now ≤ (s.host j).start + ct + Dsh.Timed.WDOG_POLL) ∧
+          ((s.host j).ph = .reading → 0 < ut → s.now ≤ (s.host j).conn + ut + Dsh.Timed.WDOG_POLL) ∧
+          ((s.host j).ph = .connecting → ct = 0 → (s.host j).intr = false) ∧
+          ((s.host j).ph = .reading → ut = 0 → (s.host j).intr = false) := by
+  obtain ⟨_, _, hct, hctt, hut, hutt, _, _⟩ := rejected hd4 hd5 hat h hl hplain
+  obtain ⟨_, p2, p3, _, _, _, _⟩ := precedence h
+  refine ⟨c.connectTimeout.toNat, c.commandTimeout.toNat, by omega, by omega, ?_, ?_, ?_, ?_, ?_⟩
+  · intro t ht
+    rw [hctt t ht]
+    congr 1
+    omega
+  · intro hn
+    rw [Int.toNat_of_nonneg hct, p2]
+    unfold chosenText at hn
+    cases h1 : lastArg 't' (getopt (fullString d p) argv).1 <;> cases h2 : getenv env "PDSH_CONNECT_TIMEOUT" <;>
+      simp [h1, h2] at hn
+    simp [pick, h1, h2]
+  · intro t ht
+    rw [hutt t ht]
+    congr 1
+    omega
+  · intro hn
+    have : c.commandTimeout = 0 := by
+      rw [p3]
+      unfold chosenText at hn
+      cases h1 : lastArg 'u' (getopt (fullString d p) argv).1 <;> cases h2 : getenv env "PDSH_COMMAND_TIMEOUT" <;>
+        simp [h1, h2] at hn
+      simp [pick, h1, h2]
+    omega
+  · intro sopt sc sw v f scripts s hr j hj
+    have hcfg := timed_reach_cfg hr
+    have e1 : s.cfg.ct = c.connectTimeout.toNat := by rw [hcfg]; rfl
+    have e2 : s.cfg.ut = c.commandTimeout.toNat := by rw [hcfg]; rfl
+    refine ⟨fun hph hpos => ?_, fun hph hpos => ?_, fun hph hz => ?_, fun hph hz => ?_⟩
+    · have := Props.C07.connect_deadline hr hj hph (by rw [e1]; exact hpos)
+      rwa [e1] at this
+    · have := Props.C07.command_deadline hr hj hph (by rw [e2]; exact hpos)
+      rwa [e2] at this
+    · exact (Props.C07.unlimited_never_interrupted hr hj).2 hph (by rw [e1]; exact hz)
+    · exact (Props.C07.unlimited_never_interrupted hr hj).1 hph (by rw [e2]; exact hz)
+
+/-- REMOTE PROGRAM IN FORCE, composed with the command builders of C11 (Pcp/Send.lean: `pdcpCmd`, `rpdcpCmd`, the
+    strings dsh() assembles for a copy and which C11's end-to-end runs compare with the real ones): in an accepted
+    pdcp / rpdcp run the program EVERY target is asked to execute — the first word of the command line the remote shell
+    gets — is the text of the last -e, else of PDSH_REMOTE_PDCP_PATH, else the program's own path, whatever the other
+    options (-r -p, the number of sources, the destination) and wherever -e stands.  (A path without blanks; a blank
+    would split it for the remote shell: C09/C11's business.) -/
+theorem remote_program_in_force {fx : Fixes} {d : Defaults} {p : Pers} {env : Env} {argv : List Str} {c : Cfg}
+    (h : effective fx d p env argv = .ok c) (hp : p.isPcp = true) (hb : Pcp.cSp ∉ bytes c.remotePath) :
+    c.remotePath = pick (lastArg 'e' (getopt (fullString d p) argv).1) (getenv env "PDSH_REMOTE_PDCP_PATH") d.progPath ∧
+    (∀ (r pp : Bool) (n : Nat) (dest : Pcp.Str), firstWord (copyCommand c r pp n dest) = bytes c.remotePath) ∧
+    (∀ (r pp : Bool) (files : List Pcp.Str) (host : Pcp.Str),
+      firstWord (reverseCopyCommand c r pp files host) = bytes c.remotePath) := by
+  obtain ⟨_, _, _, _, _, _, p7⟩ := precedence h
+  rw [hp] at p7
+  refine ⟨p7, fun r pp n dest => ?_, fun r pp files host => ?_⟩
+  · unfold copyCommand Pcp.pdcpCmd
+    simp only [List.append_assoc]
+    apply firstWord_append _ _ hb
+    cases r <;> cases pp <;> by_cases hn : 1 < n <;> simp [hn, strBytes_r, strBytes_p, strBytes_y, strBytes_z, Pcp.cSp]
+  · unfold reverseCopyCommand Pcp.rpdcpCmd
+    simp only [List.append_assoc]
+    apply firstWord_append _ _ hb
+    cases r <;> cases pp <;> simp [strBytes_r, strBytes_p, strBytes_Z, Pcp.cSp]
+
+/-- the hypotheses are satisfiable, and the three sources are told apart: -e over the variable over the own path -/
+theorem remote_program_witnesses :
+    pathOf (mainPlan Fixes.all d0 .pdcp [("PDSH_REMOTE_PDCP_PATH".toList, "/env/pdcp".toList)]
+      (words ["-w", "h", "-e", "/cmd/pdcp", "a", "b"])) = some "/cmd/pdcp".toList ∧
+    pathOf (mainPlan Fixes.all d0 .pdcp [("PDSH_REMOTE_PDCP_PATH".toList, "/env/pdcp".toList)]
+      (words ["-e", "/first", "-w", "h", "-e", "/cmd/pdcp", "a", "b"])) = some "/cmd/pdcp".toList ∧
+    pathOf (mainPlan Fixes.all d0 .rpdcp [("PDSH_REMOTE_PDCP_PATH".toList, "/env/pdcp".toList)]
+      (words ["-w", "h", "a", "b"])) = some "/env/pdcp".toList ∧
+    pathOf (mainPlan Fixes.all d0 .pdcp [] (words ["-w", "h", "a", "b"])) = some "/p".toList ∧
+    ctmoOf (effective Fixes.all d0 .dsh [("PDSH_CONNECT_TIMEOUT".toList, "7".toList)] (words ["-w", "h", "-R", "rsh", "-t", "3", "ls"])) = some 3 ∧
+    ctmoOf (effective Fixes.all d0 .dsh [("PDSH_CONNECT_TIMEOUT".toList, "7".toList)] (words ["-w", "h", "-R", "rsh", "ls"])) = some 7 ∧
+    ctmoOf (effective Fixes.all d0 .dsh [] (words ["-w", "h", "-R", "rsh", "ls"])) = some 10 := by
   decide
 
 end PdshVerif.C18
